@@ -55,7 +55,7 @@ ProveStep(l0, e) ==
                   One(e.next = TChallengeValue(ref.tr, LState), l0, "C03", <<"prover transcript state differs from the specification's", n>>, sig("transcript")) \o
                   One(~e.write_err, l0, "C10", "Write failed on a bytes.Buffer", sig("write"))
         bad1 == One(e.inputs_unchanged, l0, "C13", "CreateMultiProof modified polynomials or indices", sig("inputs")) \o
-                One(~Has(e, "arrival_forced") \/ e.arrival_observed = e.arrival_forced, l0, "DRIFT", "the forced arrival order of the grouping workers was not the observed one", sig("arrival"))
+                One(~Has(e, "arrival_forced") \/ e.arrival_ok, l0, "DRIFT", "the forced arrival order of the grouping workers was not the observed one", sig("arrival"))
         h    == IF Has(e, "panic") \/ e.err THEN NoHon
                 ELSE [set |-> TRUE, Cs |-> after, zs |-> e.zs, ys |-> [i \in 1 .. n |-> ops[i].f[ops[i].z + 1]],
                       proof |-> ProofOf(e.proof), label |-> e.label, next |-> e.next, n |-> n]
